@@ -1,5 +1,5 @@
 SPECIFICATION Spec
 CONSTANTS
-  Kinds = {"addsub", "diff", "months", "group", "trunc", "tod"}
+  Kinds = {"addsub", "diff", "months", "group", "trunc", "tod", "nat"}
 INVARIANTS Laws EmitTime
 CHECK_DEADLOCK FALSE
